@@ -63,6 +63,28 @@ func layoutPath(f, dirs string) string {
 
 func layoutFiles(graph, dirs string) map[string]string { return layoutFilesMix(graph, dirs, false) }
 
+// layoutFilesFor: the documents of a layout under a mapping mode (own / samebase add the shared-name definitions;
+// mixedflags writes every $id with an empty fragment, the draft-04 idiom "id#", which a URL parser would rewrite).
+func layoutFilesFor(graph, dirs, mapping string) map[string]string {
+	files := layoutFilesMix(graph, dirs, mapping == "own" || mapping == "samebase")
+	if mapping == "mixedflags" {
+		for n, text := range files {
+			for _, f := range []string{"a", "b", "c", "z"} {
+				text = strings.ReplaceAll(text, `"$id":"https://example.com/`+f+`"`, `"$id":"`+layoutID(f, mapping)+`"`)
+			}
+			files[n] = text
+		}
+	}
+	return files
+}
+
+func layoutID(f, mapping string) string {
+	if mapping == "mixedflags" {
+		return "HTTPS://example.com/" + f + "#"
+	}
+	return "https://example.com/" + f
+}
+
 // layoutFilesMix: with mix, every document also declares a definition Base (whose only property has a different
 // type in every document) and a property mix = allOf[{"$ref": "#/$defs/Base"}, {...}]: the textually identical
 // reference, inside an allOf, with a different target per document.
@@ -130,7 +152,9 @@ func layoutCfg(mapping, modPrefix string) work.Cfg {
 // cliMapping: the mappings that name an id through ONE of the per-schema flags only. What the missing parts of
 // such a mapping default to is decided by main.go, not by the generator package, so these layouts go through the
 // real command line instead of the in-process driver.
-func cliMapping(mapping string) bool { return mapping == "pkgonly" || mapping == "rootonly" }
+func cliMapping(mapping string) bool {
+	return mapping == "pkgonly" || mapping == "rootonly" || mapping == "mixedflags"
+}
 
 func layoutFlags(mapping, modPrefix string) []string {
 	fl := []string{"-p", modPrefix + "/all", "-o", "all/all.go", "--tags", "json"}
@@ -139,6 +163,13 @@ func layoutFlags(mapping, modPrefix string) []string {
 		fl = append(fl, "--schema-package=https://example.com/b="+modPrefix+"/pb")
 	case "rootonly":
 		fl = append(fl, "--schema-root-type=https://example.com/b=RootB")
+	case "mixedflags":
+		// a is named by one flag only and sorts before ids that are named by several; z by none
+		fl = append(fl,
+			"--schema-root-type="+layoutID("a", mapping)+"=RootA",
+			"--schema-package="+layoutID("b", mapping)+"="+modPrefix+"/pb", "--schema-output="+layoutID("b", mapping)+"=pb/b.go",
+			"--schema-output="+layoutID("c", mapping)+"=pc/c.go", "--schema-package="+layoutID("c", mapping)+"="+modPrefix+"/pc",
+			"--schema-root-type="+layoutID("c", mapping)+"=RootC")
 	}
 	return fl
 }
@@ -245,7 +276,7 @@ func RunLayouts(tier, rule string) int {
 	type cfgKey struct{ graph, mapping, dirs string }
 	var cfgs []cfgKey
 	for _, g := range []string{"none", "chain", "diamond", "cycle"} {
-		for _, m := range []string{"default", "own", "samebase", "sharedsame", "shareddiff", "pkgonly", "rootonly"} {
+		for _, m := range []string{"default", "own", "samebase", "sharedsame", "shareddiff", "pkgonly", "rootonly", "mixedflags"} {
 			for _, d := range []string{"flat", "sub"} {
 				cfgs = append(cfgs, cfgKey{g, m, d})
 			}
@@ -341,7 +372,7 @@ func RunLayouts(tier, rule string) int {
 			for _, a := range lr.Args {
 				entries = append(entries, layoutPath(a, c.dirs))
 			}
-			job := work.GenJob{ID: id, Dir: filepath.Join(sc.Dir, "in", id), Files: layoutFilesMix(c.graph, c.dirs, c.mapping == "own" || c.mapping == "samebase"), Entries: entries,
+			job := work.GenJob{ID: id, Dir: filepath.Join(sc.Dir, "in", id), Files: layoutFilesFor(c.graph, c.dirs, c.mapping), Entries: entries,
 				OutDir: filepath.Join(sc.Mod, "gen", id), Cfg: layoutCfg(c.mapping, "vscratch/gen/"+id)}
 			if cliMapping(c.mapping) {
 				cliJobs = append(cliJobs, job)
@@ -470,7 +501,7 @@ func RunLayouts(tier, rule string) int {
 			confirmed++
 			if len(vlines) < 10 {
 				rp := map[string]any{"property": prop, "kind": "multi-file-run", "graph": e.run.Graph, "mapping": e.run.Mapping, "dirs": e.run.Dirs,
-					"arguments": e.run.Args, "files": layoutFilesMix(e.run.Graph, e.run.Dirs, e.run.Mapping == "own" || e.run.Mapping == "samebase"), "options": layoutCfg(e.run.Mapping, "MODULE"),
+					"arguments": e.run.Args, "files": layoutFilesFor(e.run.Graph, e.run.Dirs, e.run.Mapping), "options": layoutCfg(e.run.Mapping, "MODULE"),
 					"expected_by_model": e.Design, "observed": e.Obs, "error": e.Obs.err, "how_to_rerun": "bin/vcheck replay " + prop + " <this file>"}
 				if cliMapping(e.run.Mapping) {
 					rp["command_line"] = append([]string{"go-jsonschema"}, layoutFlags(e.run.Mapping, "MODULE")...)
